@@ -11,7 +11,7 @@ LEVEL_TEXT = "Theorems over the flat multi-tick model (any wiring with one sourc
 LEVEL_NOTE = 'Trusts: Lean kernel; hand-written models (tied by whole-simulation trace validation on every run).'
 ASSUMPTIONS = ["each input port has one source", "acyclic wiring", "valid configuration names (unique, not 'external'/'expose')"]
 MON = ("inputs_latest", "device_order")
-CORR = ("sim",)
+CORR = ('inputs',)
 
 
 def run(tier, seed, drv):
